@@ -256,8 +256,26 @@ class IntroducerClient(service.Service, Referenceable):
                          parent=lp, level=log.WEIRD, umid="ZAU15Q")
                 # process other announcements that arrived with the bad one
                 continue
+            except Exception:
+                # anything else that is wrong with this element (not a
+                # 3-tuple, an unrecognized or undecodable signature or key,
+                # a message that is not JSON, ...) must not keep us from
+                # looking at the rest of the batch either.
+                log.err(format="malformed inbound announcement: %(ann_t)s",
+                        ann_t=repr(ann_t), parent=lp,
+                        facility="tahoe.introducer.client",
+                        level=log.WEIRD, umid="Q8jh4A")
+                continue
 
-            self._process_announcement(ann, key_s)
+            try:
+                self._process_announcement(ann, key_s)
+            except Exception:
+                # e.g. a correctly signed announcement that lacks a
+                # service-name: skip it and keep going.
+                log.err(format="unusable inbound announcement: %(ann)s",
+                        ann=repr(ann), parent=lp,
+                        facility="tahoe.introducer.client",
+                        level=log.WEIRD, umid="nYw2Cg")
 
     def _process_announcement(self, ann, key_s):
         precondition(isinstance(key_s, bytes), key_s)
